@@ -438,6 +438,43 @@ def norm_block(stmts: list) -> list:
                 continue
         unrolled.append(s)
     stmts = unrolled
+    # X.extend(E for (a, b) in ((a1, b1), (a2, b2)) [if C])   ->   [if C1:] X.append(E1) ; [if C2:] X.append(E2)
+    expanded = []
+    for s in stmts:
+        done = False
+        if isinstance(s, ast.Expr) and isinstance(s.value, ast.Call) and isinstance(s.value.func, ast.Attribute) and s.value.func.attr == "extend" \
+                and len(s.value.args) == 1 and isinstance(s.value.args[0], (ast.GeneratorExp, ast.ListComp)) and len(s.value.args[0].generators) == 1:
+            comp = s.value.args[0]
+            g = comp.generators[0]
+            rows_src = g.iter
+            tnames = [t.id for t in g.target.elts] if isinstance(g.target, ast.Tuple) and all(isinstance(t, ast.Name) for t in g.target.elts) else \
+                ([g.target.id] if isinstance(g.target, ast.Name) else None)
+            if isinstance(rows_src, (ast.Tuple, ast.List)) and tnames and 1 <= len(rows_src.elts) <= 12 \
+                    and not any(isinstance(x, ast.Starred) for x in rows_src.elts):
+                rows = []
+                for row in rows_src.elts:
+                    if len(tnames) == 1 and not isinstance(g.target, ast.Tuple):
+                        rows.append([row])
+                    elif isinstance(row, (ast.Tuple, ast.List)) and len(row.elts) == len(tnames):
+                        rows.append(list(row.elts))
+                    else:
+                        rows = None
+                        break
+                if rows:
+                    for row in rows:
+                        mp = dict(zip(tnames, row))
+                        app = ast.Expr(value=ast.Call(func=ast.Attribute(value=s.value.func.value, attr="append", ctx=ast.Load()),
+                                                      args=[subst(comp.elt, mp)], keywords=[]))
+                        ast.copy_location(app, s)
+                        if g.ifs:
+                            test = subst(g.ifs[0], mp) if len(g.ifs) == 1 else ast.BoolOp(op=ast.And(), values=[subst(c, mp) for c in g.ifs])
+                            expanded.append(ast.copy_location(ast.If(test=test, body=[app], orelse=[]), s))
+                        else:
+                            expanded.append(app)
+                    done = True
+        if not done:
+            expanded.append(s)
+    stmts = expanded
     # loop bodies: `if c: continue` + rest  ->  `if not c: rest` ; `if a: if b: X`  ->  `if a and b: X`
     for s in stmts:
         if isinstance(s, (ast.For, ast.AsyncFor)):
